@@ -108,6 +108,9 @@ func TokText(c *xplore.Ctx, t Tok) string {
 	case REGEX:
 		return "/" + strings.ReplaceAll(t.Text, "/", `\/`) + "/"
 	case PARAM:
+		if t.Text == "\x00" {
+			return "$" // the empty placeholder
+		}
 		if BareLegal(t.Text) {
 			return "$" + t.Text
 		}
